@@ -338,8 +338,31 @@ def check_concrete_inputs(out, facts):
            'the zero-copy Bytes hook is overridden by %s: only the BytesCursor override is audited' % [s for s in hk if s != 'codec::BytesCursor'], '-')
     # read_byte overrides (R08.2)
     rb = sorted(i['self'] for i in impls.values() if any(it['name'] == 'read_byte' for it in i['items']))
-    okrb = all(any(w in s for w in ('CountedInput', 'DepthTrackingInput', 'MemTrackingInput')) for s in rb)
-    out.ob('R08.2', 'read_byte overrides [%s]' % cfg, okrb, 'read_byte is overridden by a non-forwarding input: %s' % rb, '-')
+    # an override that does what the trait default does (one `read` of a one-byte buffer, that byte returned) is the default
+    # written out, whoever has it; decided by evaluating both with `self` as the input
+    def as_default(fn):
+        ev = sym.Evaluator(facts)
+        ctx = sym.Ctx(ev, fn)
+        ps = fn['params']
+        if not (ps and ps[0] and ps[0]['k'] == 'bind'):
+            return None
+        ctx.env[ps[0]['v']] = ('self',)
+        ev.extra_inputs.append(('self',))
+        v, t = ev.ev(fn['thir'], ctx)
+        if sym.has_opaque(t):
+            return None
+        return (sym.tstr(t), sym.vstr(v))
+    dflt = facts.trait_default('Input', 'read_byte')
+    d_sem = as_default(dflt) if dflt else None
+    plain = []
+    for s in rb:
+        if any(w in s for w in ('CountedInput', 'DepthTrackingInput', 'MemTrackingInput')):
+            continue
+        fo = facts.impl_method('Input', s, 'read_byte')
+        if not (fo and d_sem and as_default(fo) == d_sem and any(e for e in d_sem[0].split(' · ') if 'read' in e)):
+            plain.append(s)
+    out.ob('R08.2', 'read_byte overrides [%s]' % cfg, not plain,
+           'read_byte is overridden by an input that neither forwards it nor repeats the trait default: %s (all overrides: %s)' % (plain, rb), '-')
     # default read_byte = read of a one-byte buffer, returning that byte
     d = facts.trait_default('Input', 'read_byte')
     if d:
